@@ -2223,7 +2223,7 @@ func genC11(g *G, sc *Scenario, tier string, seed uint64) {
 		case 6, 7:
 			return map[string]any{"Type": "SlowSource", "Sleep": g.Pick([]string{"1ms", "700ms", "2500ms", "9s"}), "BatchSize": float64(g.Range(0, 4))}
 		default:
-			return map[string]any{"Type": "HttpDatasetSource", "Url": "http://" + g.Pick([]string{"ok.sim", "ok.sim", "tok.sim", "fail.sim", "err.sim", "slow.sim"}) + "/datasets/x/changes"}
+			return map[string]any{"Type": "HttpDatasetSource", "Url": "http://" + g.Pick([]string{"ok.sim", "ok.sim", "tok.sim", "fail.sim", "err.sim", "slow.sim", "stall.sim"}) + "/datasets/x/changes"}
 		}
 	}
 	sink := func() map[string]any {
